@@ -40,15 +40,20 @@ class SortedMap(MutableMapping[K, T], Generic[K, T]):
 
         if init_values is not None:
             if isinstance(init_values, Mapping):
-                self.keys_storage = list(init_values.keys())
+                keys = list(init_values.keys())
                 values = list(init_values.values())
             else:
-                self.keys_storage, values = zip(*init_values)
-            # sort keys
-            sorted_indices = arg_sort(self.keys_storage)
-
-            self.keys_storage = [self.keys_storage[i] for i in sorted_indices]
-            self.values_storage = [values[i] for i in sorted_indices]
+                keys, values = [], []
+                for k, v in init_values:
+                    keys.append(k)
+                    values.append(v)
+            # sort keys (stable), for repeated keys the later value wins like in dict()
+            for i in arg_sort(keys):
+                if self.keys_storage and self.keys_storage[-1] == keys[i]:
+                    self.values_storage[-1] = values[i]
+                else:
+                    self.keys_storage.append(keys[i])
+                    self.values_storage.append(values[i])
 
     def __getitem__(self, key: K) -> T:
         insert_index, already_in = self.insertions_index(key)
